@@ -46,6 +46,7 @@ inductive Op where
   | gc                                  -- get_char("got_char")
   | it                                  -- input_to("got_line")
   | err                                 -- error("c12-throw"): an uncaught LPC error, longjmp to the top of backend()
+  | exec                                -- exec(new body, current body of this user): the connection moves to another object
   deriving Repr, BEq, DecidableEq
 
 /-- harness actions (case lines) -/
@@ -76,6 +77,7 @@ inductive Ev where
   | it (u : Nat) (r : Bool)
   | endc (n : Nat) (max : Nat) (layout : List (Nat × Nat × Nat))   -- (slot, user, masked iflags)
   | err (u : Nat)                    -- the script of user `u` raises an uncaught LPC error
+  | exec (u : Nat) (r : Bool)        -- exec() moved the interactive of user `u` to a fresh object (r = it had one)
   | abort (n : Nat)                  -- iteration `n` of backend() was left by longjmp (no heart beat, no hook): the loop restarts
   | crash (what : String)
   | other (line : String)            -- only produced by the trace parser: a line that is no event
@@ -300,6 +302,8 @@ def runOps (sc : Scripts) : Nat → World → Nat → List Op → World × List 
       | .gc => let (w', r) := setCall w me true; (w', [Ev.gc me r])
       | .it => let (w', r) := setCall w me false; (w', [Ev.it me r])
       | .err => ({ w with thrown := true }, [Ev.err me])
+      -- replace_interactive: the interactive_t (slot, iflags, text buffer) is handed to the new object untouched
+      | .exec => (w, [Ev.exec me (w.alive me && w.interactive me)])
     if w1.thrown then (w1, e1)        -- the error unwinds every frame: nothing after it runs
     else if w1.alive me then
       let (w2, e2) := runOps sc f w1 me rest
